@@ -21,26 +21,46 @@ func budget(env string, def time.Duration) time.Duration {
 func scaledPass(thorough bool) *passStats {
 	ps := &passStats{Complete: true, Parts: map[string]any{}, MaxPktSize: scaledMax}
 	B := 32 * scaledMax
-	dl := time.Now().Add(budget("VERIF_C11_BUDGET_SCALED_S", map[bool]time.Duration{false: 45 * time.Second, true: 12 * time.Minute}[thorough]))
+	dl := time.Now().Add(budget("VERIF_C11_BUDGET_SCALED_S", map[bool]time.Duration{false: 50 * time.Second, true: 14 * time.Minute}[thorough]))
 
-	// (1) every partition of every short stream
-	maxLen, maxLenTwin := 16, 12
+	// (1) every partition of every short stream: the full 7-form alphabet up to fullLen bytes, three
+	// 3-form alphabets up to maxLen bytes (2^(n-1) partitions per stream of n bytes)
+	fullLen, maxLen, maxLenTwin := 12, 16, 10
 	if thorough {
-		maxLen, maxLenTwin = 18, 14
+		fullLen, maxLen, maxLenTwin = 14, 18, 12
 	}
-	shortAlpha := []blockForm{{1, 2}, {1, 3}, {3, 4}, {1, 5}, {5, 6}, {1, 7}, {3, 7}}
-	ss := shortStreams(shortAlpha, maxLen)
-	// single blocks up to the (scaled) maximum, and pairs with a maximum-size block
+	fullAlpha := []blockForm{{1, 2}, {1, 3}, {3, 4}, {1, 5}, {5, 6}, {1, 7}, {3, 7}}
+	subAlphas := [][]blockForm{{{1, 2}, {1, 3}, {3, 7}}, {{3, 4}, {5, 6}, {1, 7}}, {{1, 2}, {1, 5}, {5, 7}}}
+	seen := map[string]bool{}
+	var ss []*stream
+	addAll := func(l []*stream) {
+		for _, s := range l {
+			if !seen[s.name] {
+				seen[s.name] = true
+				ss = append(ss, s)
+			}
+		}
+	}
+	addAll(shortStreams(fullAlpha, fullLen))
+	if !thorough {
+		subAlphas = subAlphas[:2]
+	}
+	for _, a := range subAlphas {
+		addAll(shortStreams(a, maxLen))
+	}
+	// single blocks up to the (scaled) maximum
 	for _, f := range []blockForm{{1, 9}, {1, 17}, {3, 18}, {5, 18}} {
-		ss = append(ss, must(mkStream(fmt.Sprintf("short[%v]", f), []blockForm{f})))
+		addAll([]*stream{must(mkStream(fmt.Sprintf("short[%v]", f), []blockForm{f}))})
 	}
 	runs, ok := allPartitions("scaled", tFw, ss, dl)
 	ps.Runs += runs
 	ps.Classes += int64(len(ss))
 	ps.Complete = ps.Complete && ok
-	ps.Parts["short_streams_all_partitions"] = map[string]any{"target": "readTlvStream", "alphabet(type bytes,total bytes)": fmt.Sprint(shortAlpha), "max_stream_bytes": maxLen,
+	ps.Parts["short_streams_all_partitions"] = map[string]any{"target": "readTlvStream", "forms": "(type bytes, total bytes)",
+		"full_alphabet": fmt.Sprint(fullAlpha), "full_alphabet_max_stream_bytes": fullLen, "sub_alphabets": fmt.Sprint(subAlphas), "sub_alphabets_max_stream_bytes": maxLen,
 		"streams": len(ss), "runs": runs, "complete": ok}
-	ps.Samples = append(ps.Samples, fmt.Sprintf("scaled: %d short streams (blocks %v, <= %d bytes), every one of the 2^(n-1) partitions into reads: %d runs of readTlvStream", len(ss), shortAlpha, maxLen, runs))
+	ps.Samples = append(ps.Samples, fmt.Sprintf("scaled: %d short streams (every block sequence over %v up to %d bytes and over each of %v up to %d bytes), every one of the 2^(n-1) partitions into reads: %d runs of readTlvStream",
+		len(ss), fullAlpha, fullLen, subAlphas, maxLen, runs))
 	var st2 []*stream
 	for _, s := range ss {
 		if len(s.data) <= maxLenTwin {
@@ -54,13 +74,7 @@ func scaledPass(thorough bool) *passStats {
 	ps.Parts["short_streams_all_partitions_twin"] = map[string]any{"target": "StreamFace.Run", "max_stream_bytes": maxLenTwin, "streams": len(st2), "runs": runs, "complete": ok}
 
 	// (2) long streams (>= 4 buffers), every placement of <= k short reads
-	alpha := []blockForm{{1, 2}, {1, 3}, {1, 7}, {3, 7}, {5, 7}, {1, 23}, {1, 24}, {3, 24}, {5, 24}, {3, 4}, {5, 6}, {1, 24}, {1, 2}}
-	long := []*stream{
-		must(mkStream("scaled-mixed", cyc(alpha, 4*B+50))),
-		must(mkStream("scaled-all-24", rep(blockForm{1, 24}, 4*32+5))), // a buffer-filling read holds exactly 32 blocks
-		must(mkStream("scaled-all-23", rep(blockForm{1, 23}, 4*32+12))),
-		must(mkStream("scaled-all-2", rep(blockForm{1, 2}, 4*B/2+7))),
-	}
+	long := scaledLongStreams()
 	k := 2
 	longParts := []any{}
 	for i, st := range long {
@@ -72,22 +86,23 @@ func scaledPass(thorough bool) *passStats {
 				near = 40 // third/second cut within the next 40 positions unless the first is among the first 60
 			}
 		}
+		head, zp := 60, thorough // quick: the 0-byte-read variant for single short reads only
 		if i == 3 {
-			near = 24 // 2-byte blocks: 3000 positions; pairs restricted to neighbours + head
+			near, head, zp = 12, 16, false // 2-byte blocks: 3000 positions; pairs restricted to neighbours + head
 		}
-		runs, ok := cutSets("scaled", tFw, st, pos, kk, true, near, 60, dl)
+		runs, ok := cutSets("scaled", tFw, st, pos, kk, true, zp, near, head, dl)
 		ps.Runs += runs
 		ps.Classes += runs - 1
 		ps.Complete = ps.Complete && ok
 		longParts = append(longParts, map[string]any{"stream": st.name, "bytes": len(st.data), "blocks": st.blocks(), "cut_positions": len(pos),
-			"max_short_reads": kk, "neighbour_window": near, "runs": runs, "complete": ok})
+			"max_short_reads": kk, "neighbour_window": near, "head": head, "zero_read_variant_in_pairs": zp, "runs": runs, "complete": ok})
 		if i == 0 {
 			ps.Samples = append(ps.Samples, fmt.Sprintf("scaled: stream %q (%d bytes = %.1f buffers, %d blocks): every placement of <= %d short reads (plain or followed by a 0-byte read) at %d boundary offsets: %d runs",
 				st.name, len(st.data), float64(len(st.data))/float64(B), st.blocks(), kk, len(pos), runs))
 		}
 		ps.Runs += uniform("scaled", tFw, st, []int{1, 2, 3, 5, 7, 23, 24, 25, 100, B - 1, B, B + 1})
 		// twin: single short reads + uniform chunkings
-		r2, ok2 := cutSets("scaled", tTwin, st, pos, 1, false, 0, 0, dl)
+		r2, ok2 := cutSets("scaled", tTwin, st, pos, 1, false, false, 0, 0, dl)
 		ps.Runs += r2 + uniform("scaled", tTwin, st, []int{1, 2, 3, 7, 24, 100, 4095, 4096, 4097})
 		ps.Classes += r2 - 1
 		ps.Complete = ps.Complete && ok2
@@ -104,15 +119,8 @@ func realPass(thorough bool) *passStats {
 	ps := &passStats{Complete: true, Parts: map[string]any{}, MaxPktSize: realMax}
 	B := 32 * realMax
 	dl := time.Now().Add(budget("VERIF_C11_BUDGET_REAL_S", map[bool]time.Duration{false: 45 * time.Second, true: 12 * time.Minute}[thorough]))
-	// total sizes 2, 252..258 (both sides of the 1-/3-byte length switch at value length 253), 4400, 8799, 8800;
-	// 255 and 256 exist only with a 3-byte type
-	alpha := []blockForm{{1, 2}, {1, 252}, {1, 253}, {1, 254}, {3, 255}, {3, 256}, {1, 257}, {5, 258}, {3, 259}, {1, 4400}, {3, 4400}, {1, 8799}, {1, 8800}, {3, 8800}, {5, 8800}, {3, 4}, {1, 8800}}
-	long := []*stream{
-		must(mkStream("real-mixed", cyc(alpha, 3*B+1000))),
-		must(mkStream("real-all-8800", rep(blockForm{1, 8800}, 3*32+4))), // a buffer-filling read holds exactly 32 blocks
-		must(mkStream("real-all-8799", rep(blockForm{1, 8799}, 3*32+5))),
-		must(mkStream("real-all-2", rep(blockForm{1, 2}, 3*B/2+9))),
-	}
+	alpha := realAlpha
+	long := realLongStreams()
 	parts := []any{}
 	for i, st := range long {
 		var filter func(k int) bool
@@ -136,7 +144,7 @@ func realPass(thorough bool) *passStats {
 			}
 		}
 		pos := st.cutPositions(filter)
-		runs, ok := cutSets("real", tFw, st, pos, kk, i != 3, near, head, dl)
+		runs, ok := cutSets("real", tFw, st, pos, kk, i != 3, false, near, head, dl)
 		ps.Runs += runs
 		ps.Classes += runs - 1
 		ps.Complete = ps.Complete && ok
@@ -153,7 +161,7 @@ func realPass(thorough bool) *passStats {
 		ps.Runs += uniform("real", tFw, st, ch)
 		// twin: single short reads (mixed stream only) + uniform chunkings
 		if i == 0 {
-			r2, ok2 := cutSets("real", tTwin, st, pos, 1, false, 0, 0, dl)
+			r2, ok2 := cutSets("real", tTwin, st, pos, 1, false, false, 0, 0, dl)
 			ps.Runs += r2
 			ps.Classes += r2 - 1
 			ps.Complete = ps.Complete && ok2
@@ -246,4 +254,32 @@ func observations(pass string, max int) []string {
 		out = append(out, fmt.Sprintf("[%s] oversize block (max+1 bytes) whose first max bytes end exactly at the end of the receive buffer: %s -- out of scope for C11 (block larger than the maximum); relevant to C04", pass, res))
 	}
 	return out
+}
+
+// ---------------------------------------------------------------------------------------------
+// the long streams (also rebuilt by name when a replay file is re-executed)
+
+func scaledLongStreams() []*stream {
+	B := 32 * scaledMax
+	alpha := []blockForm{{1, 2}, {1, 24}, {1, 3}, {3, 24}, {1, 7}, {1, 23}, {3, 7}, {5, 24}, {5, 7}, {1, 24}, {3, 4}, {3, 23}, {5, 6}, {1, 24}, {1, 2}, {5, 23}}
+	return []*stream{
+		must(mkStream("scaled-mixed", cyc(alpha, 4*B+50))),
+		must(mkStream("scaled-all-24", rep(blockForm{1, 24}, 4*32+5))), // a buffer-filling read holds exactly 32 blocks
+		must(mkStream("scaled-all-23", rep(blockForm{1, 23}, 4*32+12))),
+		must(mkStream("scaled-all-2", rep(blockForm{1, 2}, 4*B/2+7))),
+	}
+}
+
+// total sizes 2, 252..259 (both sides of the 1-/3-byte length switch at value length 253), 4400, 8799, 8800;
+// 255 and 256 exist only with a 3-byte type
+var realAlpha = []blockForm{{1, 2}, {1, 252}, {1, 253}, {1, 254}, {3, 255}, {3, 256}, {1, 257}, {5, 258}, {3, 259}, {1, 4400}, {3, 4400}, {1, 8799}, {1, 8800}, {3, 8800}, {5, 8800}, {3, 4}, {1, 8800}}
+
+func realLongStreams() []*stream {
+	B := 32 * realMax
+	return []*stream{
+		must(mkStream("real-mixed", cyc(realAlpha, 3*B+1000))),
+		must(mkStream("real-all-8800", rep(blockForm{1, 8800}, 3*32+4))), // a buffer-filling read holds exactly 32 blocks
+		must(mkStream("real-all-8799", rep(blockForm{1, 8799}, 3*32+5))),
+		must(mkStream("real-all-2", rep(blockForm{1, 2}, 3*B/2+9))),
+	}
 }
